@@ -310,6 +310,10 @@ def check_once(case, reuse=False):
     elif op in ("scalar_mult", "elementwise_mult", "scalar_mult_bcast"):
         fn = cplx.elementwise_mult if op == "elementwise_mult" else cplx.scalar_mult
         cmp(fn(ta, tb), a * b, (mx(a) + 1e-300) * (mx(b) + 1e-300) * 4, op)
+        if op != "scalar_mult_bcast" and ta.dim() >= 3 and tb.dim() == ta.dim():
+            # the same operands as non-contiguous (swapped-axes) views of the same values
+            nc = lambda t: t.transpose(1, -1).contiguous().transpose(1, -1)
+            cmp(fn(nc(ta), nc(tb)), a * b, (mx(a) + 1e-300) * (mx(b) + 1e-300) * 4, op + "(non-contiguous views)")
     elif op == "scalar_mult_out":
         buf = torch.full((2,) + a.shape, 7.0, dtype=torch.float64)
         r = cplx.scalar_mult(ta, tb, out=buf)
